@@ -12,6 +12,11 @@ import (
 // exiting the process, so that the harness can attribute them.
 type SilentLogger struct{}
 
+// FormatLogs makes the silent logger format what it is given at error level, as the stock
+// logger does (the formatting calls the Error / Format methods of the logged values, on the
+// goroutine that logs); the text is discarded. Set in racesim.
+var FormatLogs bool
+
 var _ syslog.Logger = SilentLogger{}
 
 func (SilentLogger) Level(lv syslog.Lv) syslog.Logger { return SilentLogger{} }
@@ -24,8 +29,16 @@ func (SilentLogger) Info(v ...any)                    {}
 func (SilentLogger) Infof(format string, v ...any)    {}
 func (SilentLogger) Warn(v ...any)                    {}
 func (SilentLogger) Warnf(format string, v ...any)    {}
-func (SilentLogger) Error(v ...any)                   {}
-func (SilentLogger) Errorf(format string, v ...any)   {}
+func (SilentLogger) Error(v ...any) {
+	if FormatLogs {
+		_ = fmt.Sprint(v...)
+	}
+}
+func (SilentLogger) Errorf(format string, v ...any) {
+	if FormatLogs {
+		_ = fmt.Sprintf(format, v...)
+	}
+}
 func (SilentLogger) Panic(v ...any)                   { panic(fmt.Sprint(v...)) }
 func (SilentLogger) Panicf(format string, v ...any)   { panic(fmt.Sprintf(format, v...)) }
 func (SilentLogger) Fatal(v ...any)                   { panic("FATAL: " + fmt.Sprint(v...)) }
